@@ -75,5 +75,14 @@ CHECKS = {
                 "the docstring's mu0, K0) - all as SMT obligations with symbolic parameters.",
         "note": "jax AD trusted; van der Waals modulus within 2e-2 (documented 1e-4 regularisation) and for a = 0; eigenvalue-based pairs outside.",
     },
+    "C07": {
+        "category": "model_checking",
+        "text": "Bounded symbolic path enumeration of the real Newton driver: stub items return fresh symbolic vectors/matrices per call, the linear solver is a contract stub (A x = b assumed), the norm tests "
+                "fork. On every feasible path (convergence after 1..3 iterations, failure) z3 discharges: prescribed unknowns carry exactly the prescribed values, free unknowns are start + sum of solver results, "
+                "the returned residual is the one assembled at the returned state and the success test was applied to it, iteration bookkeeping, state variables committed once with the last evaluation on success and "
+                "never on failure (which raises), a linear model converges with the first update (the other branch is infeasible under the solver contract), continuation from a returned state. "
+                "The partitioned linear solve is checked for 26 (quick) / all 255 (thorough) partitions of 8 symbolic unknowns: the solver receives K11 and -r1 - K10 (ext0 - u0), increments are placed correctly.",
+        "note": "convergence of Newton on real nonlinear problems and SuperLU accuracy are outside the claim; maxiter <= 3.",
+    },
 }
 NOT_APPLICABLE = {}
